@@ -249,8 +249,8 @@ Definition ref_allow (a : str) : option ref_url :=
   match ref_parse a with
   | None => None
   | Some d =>
-    let t := trim_end_str (s ".git") (trim a) in
-    let plain := negb (mem_char 63 t) && negb (mem_char 35 t) in
+    let plain := negb (mem_char 63 (r_host d)) && negb (mem_char 35 (r_host d))
+                 && negb (mem_char 63 (r_path d)) && negb (mem_char 35 (r_path d)) in
     let no_port := match r_port d with None => true | Some _ => false end in
     let user_ok :=
       match r_form d with
